@@ -5,7 +5,7 @@
     instance on every run. *)
 From Coq Require Import NArith ZArith QArith Qabs List Bool.
 From SV Require Import Bin.Struct Fmt.DmxCodes Fmt.DmxCodesProofs Fmt.DmxBin Fmt.DmxBinProofs Fmt.DmxKv1 Fmt.DmxKv1Proofs
-  Fmt.DmxScalar Fmt.DmxScalarProofs Fmt.DmxTyped Fmt.DmxTypedProofs Text.Str Text.Escape Text.Tokenizer Text.TokGen Fmt.DmxKv2 Fmt.DmxKv2Proofs Fmt.DmxKv2Nested Fmt.DmxKv2NestedProofs Fmt.DmxKv2Inst Num.Dec6 Fmt.DmxValText Fmt.DmxValTextProofs Fmt.DmxHeader Fmt.DmxHeaderProofs Fmt.DmxMembers Fmt.DmxMembersProofs Fmt.DmxMembersParse Fmt.DmxMembersParseProofs Fmt.DmxMembersKv2 Fmt.DmxMembersKv2Proofs Fmt.DmxKv1Sel Fmt.DmxKv1SelProofs Fmt.DmxKv2Graph Fmt.DmxKv2GraphProofs Fmt.DmxKv2GraphUnique Fmt.DmxKv2GraphWhole Fmt.DmxPropertyBin Fmt.DmxPropertyKv2 Gen.DmxCodes_gen.
+  Fmt.DmxScalar Fmt.DmxScalarProofs Fmt.DmxTyped Fmt.DmxTypedProofs Text.Str Text.Escape Text.Tokenizer Text.TokGen Fmt.DmxKv2 Fmt.DmxKv2Proofs Fmt.DmxKv2Nested Fmt.DmxKv2NestedProofs Fmt.DmxKv2Inst Num.Dec6 Fmt.DmxValText Fmt.DmxValTextProofs Fmt.DmxHeader Fmt.DmxHeaderProofs Fmt.DmxMembers Fmt.DmxMembersProofs Fmt.DmxMembersParse Fmt.DmxMembersParseProofs Fmt.DmxMembersKv2 Fmt.DmxMembersKv2Proofs Fmt.DmxKv1Sel Fmt.DmxKv1SelProofs Fmt.DmxKv2Graph Fmt.DmxKv2GraphProofs Fmt.DmxKv2GraphUnique Fmt.DmxKv2GraphFuel Fmt.DmxKv2GraphWhole Fmt.DmxPropertyBin Fmt.DmxPropertyKv2 Gen.DmxCodes_gen.
 Import ListNotations.
 
 (** The premises of the theorems below, for the configuration generated from today's source.  The check proves
@@ -587,6 +587,12 @@ Proof. exact nest_complete. Qed.
 Theorem kv2_inline_blocks_are_not_roots : forall g isroot f i, Forall (fun j => isroot j = false) (List.tl (blocks g isroot f i)).
 Proof. exact inline_blocks_not_roots. Qed.
 
+(** The writer's recursion ends: below a root no chain of inline blocks is longer than the number of elements (the blocks of
+    different levels are different elements), so the tree of blocks exists. *)
+Theorem kv2_nest_total : forall g fold vtnames c, root_rule_ok c = true -> graph_ok g = true ->
+  exists d, nest_doc g (is_root fold vtnames c false g) false = Some d.
+Proof. exact nest_total. Qed.
+
 (** Sharing: with the root rule no element is written twice (an element that is not a root has one holder; the blocks are
     counted level by level below the roots). *)
 Theorem kv2_nest_written_once : forall g fold vtnames c, root_rule_ok c = true -> graph_ok g = true ->
@@ -672,15 +678,13 @@ Proof. exact c14_property_binary_example. Qed.
     carry: [doc_ok]; every element reachable from the exported one): flat layout — the exported text, tokenized, parsed and
     linked is [g]; nested layout — the tree of blocks [d] the root rule gives is parsed back from its text, contains every
     element exactly once (sharing, cycles: by reference to a top-level block), the exported one first, and the elements
-    the reader registers are, up to order, the flat document of [g], whose references resolve to [g].  ([nest_doc] is
-    total on the graphs seen by the check — correspondence:kv2-nested-graph — but that fuel [length g + 1] suffices is
-    not proved: it is the visible hypothesis [nest_doc ... = Some d].) *)
+    the reader registers are, up to order, the flat document of [g], whose references resolve to [g]. *)
 Theorem c14_property_kv2 :
   forall (T : tables) (o : opts) (fold : Str.str -> Str.str) (vtnames : list Str.str) (c : rootcfg),
     kv2_tables_ok T = true -> kv2_opts_ok o = true -> vtnames_ok T fold vtnames = true -> root_rule_ok c = true ->
     forall g : gdoc, graph_ok g = true -> doc_ok T vtnames (flatten g) = true -> g <> [] -> (forall j, (j < length g)%nat -> reach g j) ->
       match parse_text T o fold vtnames (render_doc T (flatten g)) with Some d => link d | None => None end = Some g /\
-      forall d, nest_doc g (is_root fold vtnames c false g) false = Some d ->
+      exists d, nest_doc g (is_root fold vtnames c false g) false = Some d /\
         parsen_text T o fold vtnames (rendern_doc T d) = Some d /\
         written_once d = true /\
         Permutation.Permutation (unnest d) (flatten g) /\
@@ -690,7 +694,6 @@ Proof. exact c14_property_kv2_gen. Qed.
 
 Theorem c14_property_kv2_premises_satisfiable :
   kv2_tables_ok pinned_tables && kv2_opts_ok pinned_kv2_opts && vtnames_ok pinned_tables (fun s => s) pinned_vtnames &&
-  root_rule_ok pinned_rootcfg && graph_ok ex_graph && doc_ok pinned_tables pinned_vtnames (flatten ex_graph) &&
-  match nest_doc ex_graph (is_root (fun s => s) pinned_vtnames pinned_rootcfg false ex_graph) false with Some _ => true | None => false end = true /\
+  root_rule_ok pinned_rootcfg && graph_ok ex_graph && doc_ok pinned_tables pinned_vtnames (flatten ex_graph) = true /\
   (forall j, (j < length ex_graph)%nat -> reach ex_graph j).
 Proof. exact c14_property_kv2_example. Qed.
